@@ -8,13 +8,18 @@ from . import ast
 from . import parser
 
 
+NULL = object()
+
+
 class BQLSemantics:
 
     def set_context(self, ctx):
         self._ctx = ctx
 
     def null(self, value):
-        return None
+        # TatSu drops None values from closures. Use a placeholder
+        # to keep the NULL elements of list literals.
+        return NULL
 
     def _invalid(self, value):
         # Invalid literals are reported as syntax errors at the position
@@ -51,7 +56,12 @@ class BQLSemantics:
         return ast.Asterisk()
 
     def list(self, value):
-        return list(value)
+        return [None if item is NULL else item for item in value]
+
+    def constant(self, value, typename):
+        if value['value'] is NULL:
+            value = {**value, 'value': None}
+        return self._default(value, typename)
 
     def ordering(self, value):
         return ast.Ordering[value or 'ASC']
